@@ -31,7 +31,7 @@ theorem cell_step_denotes_tables (km : KModel α) {h : Heap α} {parameters inpu
       1 ≤ sz ∧ row + sz ≤ rows ∧ (ownLenZ (mat pst pb rows nSets) i (rowOf lay k)).toNat ≤ sz)
     (hiN : i < N) (hiM : i < M) (hT : T ≤ T')
     {rd : RunDims} (hrd : runDims inputs states outputs = .ok rd)
-    (hK : ∀ p ins st r, km.run p ins st = .ok r →
+    (hK : ∀ p ins st r, ins.length = nI → (∀ s ∈ ins, s.length = T) → st.length = nS → km.run p ins st = .ok r →
       r.outputs.length ≤ nO ∧ (∀ ser ∈ r.outputs, ser.length ≤ T) ∧ r.states.length ≤ nS)
     {s' : List α} {o' : List (List α)}
     (hcs : cellStep km spec lay (mat pst pb rows nSets)
@@ -130,7 +130,7 @@ theorem runCellsNdT_loop (km : KModel α) {parameters inputs states outputs : Ar
       1 ≤ sz ∧ row + sz ≤ rows ∧ (ownLenZ (mat pst pb rows nSets) i (rowOf lay k)).toNat ≤ sz)
     (hNM : N ≤ M) (hT : T ≤ T')
     {rd : RunDims} (hrd : runDims inputs states outputs = .ok rd)
-    (hK : ∀ p ins st r, km.run p ins st = .ok r →
+    (hK : ∀ p ins st r, ins.length = nI → (∀ s ∈ ins, s.length = T) → st.length = nS → km.run p ins st = .ok r →
       r.outputs.length ≤ nO ∧ (∀ ser ∈ r.outputs, ser.length ≤ T) ∧ r.states.length ≤ nS)
     (S : Nat → List α) (O : Nat → List (List α))
     (hcell : ∀ k, k < N → cellStep km spec lay
@@ -215,7 +215,7 @@ theorem runNdT_eq_runCells (km : KModel α) {h : Heap α} {parameters inputs sta
     (hTb : ∀ i, i < N → ∀ (j k row sz : Nat), spec[j]? = some (some k) → lay[j]? = some (row, sz) →
       1 ≤ sz ∧ row + sz ≤ rows ∧ (ownLenZ (mat pst pb rows nSets) i (rowOf lay k)).toNat ≤ sz)
     (hNM : N ≤ M) (hT : T ≤ T')
-    (hK : ∀ p ins st r, km.run p ins st = .ok r →
+    (hK : ∀ p ins st r, ins.length = nI → (∀ s ∈ ins, s.length = T) → st.length = nS → km.run p ins st = .ok r →
       r.outputs.length ≤ nO ∧ (∀ ser ∈ r.outputs, ser.length ≤ T) ∧ r.states.length ≤ nS)
     {ss : List (List α)} {os : List (List (List α))}
     (hrun : runCells km spec lay (mat pst pb rows nSets)
